@@ -49,23 +49,31 @@ extern MPT_STRUCT(buffer) *mpt_array_reserve(MPT_STRUCT(array) *arr, size_t len,
 	if ((flags & MPT_ENUM(BufferShared))
 	 || (flags & MPT_ENUM(BufferImmutable))) {
 		MPT_STRUCT(buffer) *reserve;
+		size_t used = 0;
+		int copy = 0;
 		
+		if (buf) {
+			used = buf->_used;
+			if (old) {
+				used -= used % old->size;
+			}
+			/* compatible content is kept completely */
+			if ((old == traits)
+			 && !(flags & MPT_ENUM(BufferNoCopy))
+			 && !(old && old->fini && !old->init)) {
+				copy = 1;
+				if (used > len) {
+					len = used;
+				}
+			}
+		}
 		if (!(reserve = _mpt_buffer_alloc(len, 0))) {
 			return 0;
 		}
 		reserve->_content_traits = traits;
 		if (buf) {
-			size_t used = buf->_used;
-			if (old) {
-				used -= used % old->size;
-			}
 			/* copy compatible content */
-			if ((old == traits)
-			 && !(flags & MPT_ENUM(BufferNoCopy))
-			 && !(old && old->fini && !old->init)) {
-				if (used > len) {
-					used = len;
-				}
+			if (copy) {
 				if (used && mpt_buffer_set(reserve, traits, 0, buf + 1, used) < 0) {
 					reserve->_vptr->unref(reserve);
 					return 0;
